@@ -911,6 +911,51 @@ def dtd_declarations_override_builtin_prefixes(ctx: Ctx) -> None:
                msg="the built-in bindings are written after (over) the declared ones: a DTD that binds xlink / xs / xsi to another URI gets fields in the wrong namespace and its valid documents are rejected")
 
 
+@rule("C17.R7")
+def part_prefixes_resolve_in_the_parts_own_scope(ctx: Ctx) -> None:
+    """In the WSDL mapper, a prefix split off a per-item attribute inside a loop (`prefix, name = text.split(part.element)`) is resolved
+    against that item's own prefix map (`part.ns_map`), never against a map that accumulates the maps of all items of the loop: two parts may
+    bind the same prefix to different namespaces."""
+    n = 0
+    for fi in ctx.repo.funcs_in("xsdata.codegen.mappers.definitions"):
+        loops = [x for x in walk_no_nested(fi.node) if isinstance(x, ast.For) and isinstance(x.target, ast.Name)]
+        for loop in loops:
+            item = loop.target.id
+            inside = [x for st in loop.body for x in [st, *walk_no_nested(st)]]
+            prefixes: set[str] = set()
+            for a in inside:
+                if isinstance(a, ast.Assign) and isinstance(a.value, ast.Call) and call_name_of(a.value) == "split" and a.value.args and root_name(a.value.args[0]) == item:
+                    for t in a.targets:
+                        if isinstance(t, (ast.Tuple, ast.List)) and t.elts and isinstance(t.elts[0], ast.Name):
+                            prefixes.add(t.elts[0].id)
+            if not prefixes:
+                continue
+            accumulated = {c.func.value.id for c in calls_in(fi.node) if isinstance(c.func, ast.Attribute) and c.func.attr == "update" and isinstance(c.func.value, ast.Name) and c.args
+                           and any(isinstance(x, ast.Attribute) and x.attr == "ns_map" and root_name(x) in {lp.target.id for lp in loops} for x in ast.walk(c.args[0]))}
+            for x in inside:
+                recv = key = None
+                if isinstance(x, ast.Call) and isinstance(x.func, ast.Attribute) and x.func.attr == "get" and x.args:
+                    recv, key = x.func.value, x.args[0]
+                elif isinstance(x, ast.Subscript) and isinstance(x.ctx, ast.Load):
+                    recv, key = x.value, x.slice
+                if recv is None or not (isinstance(key, ast.Name) and key.id in prefixes):
+                    continue
+                own = isinstance(recv, ast.Attribute) and recv.attr == "ns_map" and root_name(recv) == item
+                if own:
+                    n += 1
+                    ctx.ob(f"{fi.qual.split(':')[1]}: the prefix of `{item}` is resolved in `{item}.ns_map`", True, at=fi, node=x, construct=f"{item} prefix scope")
+                elif isinstance(recv, ast.Name) and recv.id in accumulated:
+                    n += 1
+                    ctx.ob(f"{fi.qual.split(':')[1]}: the prefix of `{item}` is resolved in `{item}.ns_map`", False, at=fi, node=x, construct=f"{item} prefix scope",
+                           msg=f"`{unparse(recv)}` accumulates the prefix maps of all items of the loop (`{recv.id}.update(... .ns_map)`): when two parts bind the same prefix to different namespaces the last "
+                               "binding wins for every part and the part's type / element qname lands in the wrong namespace")
+                else:
+                    ctx.abstain(f"prefix scope of `{item}` in {fi.name}", at=fi, why=f"the prefix is looked up in `{unparse(recv)}`, whose relation to the item's own map is not recognised")
+    ctx.note("C17.R7 per-item prefix lookups", n)
+    if not n:
+        ctx.abstain("per-item prefix lookups of the WSDL mapper", at=ctx.repo.module("xsdata.codegen.mappers.definitions"), why="no loop splits a prefix off its item and looks it up")
+
+
 @rule("C17.R6")
 def explicit_empty_namespace_is_kept(ctx: Ctx) -> None:
     """DefinitionsMapper: a helper that is called with namespace="" (an explicitly unqualified SOAP child such as Fault/detail) does not treat
